@@ -31,7 +31,9 @@ from sim.tape import Tape
 PROP = "C14"
 R = W.SIMROOT
 REPO = os.environ.get("VERIF_REPO", "/repo")
-BUNDLED_TPL = os.path.join(REPO, "gtwrap", "matlab_wrapper", "matlab_wrapper.tpl")
+import gtwrap.matlab_wrapper.wrapper as _mlw  # noqa: E402  (the tree under test, first on sys.path)
+GTWRAP_DIR = os.path.dirname(os.path.dirname(os.path.realpath(_mlw.__file__)))
+BUNDLED_TPL = os.path.join(GTWRAP_DIR, "matlab_wrapper", "matlab_wrapper.tpl")
 BUNDLED_TPL_BYTES = b"#include <gtwrap/matlab.h>\n#include <map>\n"
 PY_SCRIPT = os.path.join(REPO, "scripts", "pybind_wrap.py")
 ML_SCRIPT = os.path.join(REPO, "scripts", "matlab_wrap.py")
@@ -55,7 +57,8 @@ PROBES = ["switch_inside_mkdir_window", "crash_between_wrapper_cpp_writes", "tor
           "stale_longer_file_overwritten", "wrapper_reused_3x_with_xml_overloads",
           "ascii_locale_nonascii_input", "task_restarted", "shared_matlab_outdir",
           "submodule_stem_with_dot_i", "submodule_h_extension", "cwd_is_source_dir",
-          "crash_in_open_write_window", "second_run_over_existing_outputs"]
+          "crash_in_open_write_window", "second_run_over_existing_outputs",
+          "mkdir_race_lost_after_isdir_false"]
 
 
 def batches(tier):
@@ -141,16 +144,27 @@ def _add_overload_pairs(model, tape):
 def gen_build(tape):
     sc = {"inputs": {}, "stale": {}, "predirs": [R + "/src", R + "/build"], "tasks": []}
     src, build = R + "/src", R + "/build"
-    n_py = tape.weighted([1, 3, 1], "n-py")
-    n_ml = tape.weighted([2, 3, 2], "n-ml")
+    # swarm: a scenario family per run.  0 = general mix; 1 = two MATLAB toolboxes generated into one
+    # directory with a common package (the gtsam / gtsam_unstable layout); 2 = pybind module with
+    # several submodule files
+    family = tape.weighted([3, 2, 2], "family")
+    sc["family"] = family
+    if family == 1:
+        n_py, n_ml = tape.weighted([3, 1], "n-py"), 2
+    elif family == 2:
+        n_py, n_ml = 1 + tape.weighted([3, 1], "n-py"), tape.weighted([3, 1], "n-ml")
+    else:
+        n_py = tape.weighted([1, 3, 1], "n-py")
+        n_ml = tape.weighted([2, 3, 2], "n-ml")
     if n_py + n_ml == 0:
         n_ml = 1
     ftag = [0]
 
-    def newfile(stem, ext, profile, max_decls=5):
+    def newfile(stem, ext, profile, max_decls=5, ns_pool=None, force_ns=False):
         k = ftag[0]
         ftag[0] += 1
-        m, lex, _ = G.generate(tape, profile, tag=_tag(k), max_decls=max_decls)
+        m, lex, _ = G.generate(tape, profile, tag=_tag(k), max_decls=max_decls, ns_pool=ns_pool,
+                               force_ns=force_ns)
         text = G.render(lex, tape)
         path = "%s/%s%s" % (src, stem, ext)
         sc["inputs"][path] = text.encode("utf-8")
@@ -162,7 +176,7 @@ def gen_build(tape):
     all_models = []
     for j in range(n_py):
         mod = "mod%d" % j
-        nsub = tape.small(3, "n-sub", p=0.55)
+        nsub = tape.small(3, "n-sub", p=0.55 if family != 2 else 0.85)
         main_path, m0, _ = newfile(tape.pick(["main", "gtsam", "core.v2"], "main-stem") + str(j), ".i", "pybind")
         models = [m0]
         subs = []
@@ -212,13 +226,18 @@ def gen_build(tape):
     if xml_dir:
         for fn, data in _xml_for(all_models, tape).items():
             sc["inputs"]["%s/%s" % (xml_dir, fn)] = data
-    shared = n_ml == 2 and tape.bool(0.6, "ml-shared-out")
+    shared = n_ml == 2 and (family == 1 or tape.bool(0.6, "ml-shared-out"))
     for j in range(n_ml):
         mod = "tb%d" % j
         nfiles = 1 + (1 if tape.bool(0.3, "ml-2files") else 0)
         paths = []
         for s in range(nfiles):
-            p, _, _ = newfile("toolbox%d_%d" % (j, s), tape.wpick([(".i", 3), (".h", 1)], "ml-ext"), "matlab")
+            # toolboxes sharing an output directory also share package (namespace) names, as gtsam and
+            # gtsam_unstable do: that is what makes their isdir -> makedirs windows overlap
+            p, _, _ = newfile("toolbox%d_%d" % (j, s), tape.wpick([(".i", 3), (".h", 1)], "ml-ext"), "matlab",
+                              ns_pool=["gtsam", "nav"] if shared else None,
+                              force_ns=shared and (family == 1 or tape.bool(0.5, "force-ns")),
+                              max_decls=3 if family == 1 else 5)
             paths.append(p)
         outdir = "%s/toolbox" % build if shared else "%s/tb%d" % (build, j)
         if tape.bool(0.5, "ml-outdir-exists"):
@@ -425,7 +444,7 @@ class BuildObserver:
         elif op in ("open-real-r", "open-real-w", "mkdir-real", "unlink-real", "remove-real", "rmdir-real",
                     "rename-real"):
             if op == "open-real-r" and (path == BUNDLED_TPL or
-                                        (path.startswith(os.path.join(REPO, "gtwrap")) and path.endswith(".tpl"))
+                                        (path.startswith(GTWRAP_DIR) and path.endswith(".tpl"))
                                         or path.startswith(self.pyprefixes)):
                 return
             self.add("I2" if op == "open-real-r" else "I1", "%s:%s:real-path" %
@@ -504,7 +523,7 @@ def run_build(tape, ctx):
     w.observers.append(obs)
     w.mutation_hook = mutation_hook_factory(obs)
     tasks = [w.add_task(_mk_task(s)) for s in sc["tasks"]]
-    w.run(switch_p=0.35)
+    w.run(switch_p=0.35, chase_p=0.5)
 
     # probes
     for s in sc["tasks"]:
@@ -524,14 +543,18 @@ def run_build(tape, ctx):
         w.probe("shared_matlab_outdir")
     if stale:
         w.probe("stale_longer_file_overwritten")
-    # a context switch between a stat(ENOENT) and the mkdir it guards
+    # a context switch between a stat(ENOENT) and the mkdir it guards; and the race actually lost
     last_stat = {}
+    seen_sw = False
     for (st, tn, inc, op, path, res, n) in w.log:
         if op == "stat" and res == "ENOENT":
             last_stat[tn] = (st, path)
-        elif op == "mkdir" and tn in last_stat and st - last_stat[tn][0] > 1:
-            w.probe("switch_inside_mkdir_window")
-            break
+        elif op == "mkdir" and tn in last_stat:
+            if st - last_stat[tn][0] > 1 and not seen_sw:
+                w.probe("switch_inside_mkdir_window")
+                seen_sw = True
+            if res == "EEXIST" and last_stat[tn][1] == path:
+                w.probe("mkdir_race_lost_after_isdir_false")
 
     viol = list(obs.viol)
     # 3. I4: final state == sequential-build model
@@ -596,10 +619,12 @@ def run_build(tape, ctx):
                      "detail": "final build directory differs from the sequential model (%s): %s" %
                                (cls, "; ".join("%s [%s]" % d for d in diffs[:6]))})
     elif diffs:
-        kinds = sorted({k for _, k in diffs})
-        viol.append({"inv": "I4", "sig": "I4:after-failed-task:%s" % "+".join(kinds),
-                     "detail": "final build directory differs (a task failed, see I5): %s" %
-                               "; ".join("%s [%s]" % d for d in diffs[:6])})
+        # a task failed (I5 above): the missing outputs are its consequence, not a second violation
+        for v in viol:
+            if v["inv"] == "I5":
+                v["detail"] += " | consequently missing/different: %s" % \
+                    "; ".join("%s [%s]" % d for d in diffs[:4])
+                break
 
     inter = hashlib.sha256(repr([(a, b) for a, b, _ in w.schedule]).encode()).hexdigest()[:16]
     sample = {
